@@ -146,12 +146,111 @@ def gen_cases(tier, seed):
         steady = {'start': 0, 'script': [None] * nframes}
         yield {'coros': [long_wait, sleeper, steady],
                'dts': [dt] * nframes, 'nondyadic': not dyadic}
+    # many sleepers, each for another time; some are killed and started
+    # again before their time (which takes them out of the wait queue):
+    # "whatever other coroutines are waiting for", nobody else's wake-up
+    # frame moves
+    for i in range(400 if tier == 'quick' else 16 * 800):
+        rng = random.Random(f'C08/restart/{seed}/{tier}/{i}')
+        nc = rng.randint(5, 16)
+        waits = rng.sample(range(2, 4 * nc), nc)
+        if rng.random() < 0.3:
+            waits = [w / 2 for w in waits]
+        yield {'mode': 'restart', 'waits': waits,
+               'lead': [rng.choice([0.5, 1]) for _ in range(rng.randint(0, 2))],
+               'restart': rng.sample(range(nc), rng.randint(1, 3)),
+               'promise_kill': rng.random() < 0.5,
+               'dts': [rng.choice([1, 1, 1, 0.5, 2])
+                       for _ in range(4 * nc + 4)]}
     n = 8000 if tier == 'quick' else 16 * 20000
     for i in range(n):
         yield gen_one(random.Random(f'C08/{seed}/{tier}/{i}'), tier)
 
 
+def run_restart(case):
+    """All coroutines yield their wait in the first frame. Those listed in
+    `restart` are killed and started again while asleep (not judged after
+    that: what a restarted sleeper does is C09's subject); every other one
+    must take its second step in the first frame by which the dt
+    accumulated since its yield reaches its wait, and never again."""
+    from fractions import Fraction
+    desper = import_desper()
+    res = Res()
+    proc = desper.CoroutineProcessor()
+    frame = [0]
+    log = []
+
+    def body(uid, wait):
+        log.append((frame[0], uid, 0))
+        yield wait
+        log.append((frame[0], uid, 1))
+        yield
+        log.append((frame[0], uid, 2))
+
+    waits = case['waits']
+    gens = [body(k, w) for k, w in enumerate(waits)]
+    promises = [proc.start(g) for g in gens]
+    proc.process(0)
+    acc = Fraction(0)
+    expected = {}
+    restarted = set()
+
+    def frame_of(dt):
+        nonlocal acc
+        frame[0] += 1
+        acc += Fraction(dt)
+        for k, w in enumerate(waits):
+            if k not in restarted and k not in expected \
+                    and acc >= Fraction(w):
+                expected[k] = frame[0]
+        proc.process(dt)
+
+    try:
+        for dt in case['lead']:
+            frame_of(dt)
+        for k in case['restart']:
+            if k in expected:
+                continue        # already awake: an ordinary kill, not ours
+            restarted.add(k)
+            if case['promise_kill']:
+                promises[k].kill()
+            else:
+                proc.kill(gens[k])
+            proc.start(gens[k])
+        for dt in case['dts']:
+            frame_of(dt)
+    except Exception as ex:
+        res.div(frame[0], 'process-raised', f'{type(ex).__name__}: {ex}',
+                'no exception', repr(ex))
+        return res
+    for k in range(len(waits)):
+        if k in restarted:
+            continue
+        res.stats['wakeups_checked'] += 1
+        got = [f for f, uid, step in log if uid == k and step == 1]
+        want = [expected[k]] if k in expected else []
+        if got != want:
+            res.div(want[0] if want else frame[0],
+                    'late-wake' if want and (not got or got[0] > want[0])
+                    else 'early-wake' if got and (not want
+                                                  or got[0] < want[0])
+                    else 'double-step',
+                    f'coroutine {k} (yielded {waits[k]}) took its step after '
+                    'the wait in another frame than the first one by which '
+                    'the accumulated dt reached its wait; coroutines '
+                    f'{sorted(restarted)} had been killed and started again '
+                    'while asleep', expected=want, observed=got)
+            return res
+    res.nontrivial = bool(restarted) and len(waits) - len(restarted) >= 2
+    res.tags['flags'].add('sleeper-restarted')
+    res.tags['sleepers'].add(len(waits))
+    res.sample = {'sleepers': len(waits), 'restarted': sorted(restarted)}
+    return res
+
+
 def run_case(case):
+    if case.get('mode') == 'restart':
+        return run_restart(case)
     desper = import_desper()
     res = Res()
     proc = desper.CoroutineProcessor()
@@ -361,6 +460,22 @@ def run_case(case):
 
 
 def shrink(case):
+    if case.get('mode') == 'restart':
+        if case['dts']:
+            yield dict(case, dts=case['dts'][:-1])
+        if case['lead']:
+            yield dict(case, lead=case['lead'][:-1])
+        if len(case['restart']) > 1:
+            for k in case['restart']:
+                yield dict(case, restart=[x for x in case['restart']
+                                          if x != k])
+        n = len(case['waits'])
+        for i in range(n):
+            if i not in case['restart'] and n > 2:
+                yield dict(case, waits=case['waits'][:i]
+                           + case['waits'][i + 1:],
+                           restart=[x - (x > i) for x in case['restart']])
+        return
     coros = case['coros']
     for i in range(len(coros)):
         if len(coros) > 1:
